@@ -25,8 +25,8 @@ EXTENDS TrimImpl, Json
 
 CONSTANTS Topos, Lays, Fills, MaxSlots, Menus, ArgSel
 
-VARIABLES stage, g
-vars == <<stage, g>>
+VARIABLES stage, g, out
+vars == <<stage, g, out>>
 \* g = [G, sl (definition numbers of the slots' X), topo, lay, fill, slots (descriptors)]
 
 Topo(n) == CASE n = "one"   -> << <<>> >>
@@ -165,6 +165,8 @@ Menu(name, st, n) ==
             Prod(none, {"d"}, {"d", "tl"}, F, {"struct"}, {"n", "c"})
        [] name = "parents" -> \* something a second slot can hang below
             Prod(FirstFn(G) \cup none, {"d"}, {"d", "tr"}, F, {"struct", "union"}, {"n"})
+       [] name = "fn1" ->     \* one plain argument of the first function of every service
+            Prod({u \in FnUsers(G, {"a"}) : u.i = 1}, {"d"}, {"d"}, F, {"struct"}, {"n"})
        [] name = "fns" ->
             Prod(FnUsers(G, {"a", "r"}), {"d"}, {"d", "tr"}, F, {"struct"}, {"n"})
 
@@ -216,39 +218,44 @@ Args(G) == IF ArgSel = "all" THEN ArgMenu(G)
            ELSE {a \in ArgMenu(G) : Len(a.pats) <= 1 /\ (a.pats = NoPat \/ a.pats[1].q \in {"exact", "unq", "prefix"})}
 
 \* ------------------------------------------------------------------ the state machine
-Init == stage = "root" /\ g = [G |-> [inc |-> <<<<>>>>, defs |-> <<>>], sl |-> <<>>, topo |-> "", lay |-> "", fill |-> <<>>, slots |-> <<>>]
+Init == stage = "root" /\ out = <<>> /\ g = [G |-> [inc |-> <<<<>>>>, defs |-> <<>>], sl |-> <<>>, topo |-> "", lay |-> "", fill |-> <<>>, slots |-> <<>>]
 
 PickTopoLay ==
   /\ stage = "root"
   /\ \E tp \in Topos : \E ly \in {l \in Layouts(Topo(tp)) : l.name \in Lays} :
        /\ g' = [g EXCEPT !.G = [inc |-> Topo(tp), defs |-> ly.svcs], !.topo = tp, !.lay = ly.name]
-       /\ stage' = "lay"
+       /\ stage' = "lay" /\ UNCHANGED out
 
 PickFill ==
   /\ stage = "lay"
   /\ \E fl \in [1..(Len(g.G.inc) - 1) -> Fills] :
        /\ FillOK(g.G.inc, fl)
        /\ g' = [g EXCEPT !.G.defs = @ \o FillDefs(g.G.inc, fl), !.fill = fl]
-       /\ stage' = "prog"
+       /\ stage' = "prog" /\ UNCHANGED out
 
 PickSlot ==
   /\ stage = "prog" /\ Len(g.sl) < MaxSlots
   /\ \E sl \in SlotChoices(g) : g' = AddSlot(g, sl)
-  /\ UNCHANGED stage
+  /\ UNCHANGED <<stage, out>>
 
-Next == PickTopoLay \/ PickFill \/ PickSlot
+\* B => A, case export.  The evaluation of a program's cases is a step of its own so that the worker that takes
+\* the program state from the queue does it (all workers busy), not the worker that generated the state.
+Cases(G) == {LET b == BResult(G, a) IN [ar |-> a, b |-> b, bok |-> Allowed(G, a, b)] : a \in Args(G)}
+Evaluate ==
+  /\ stage = "prog" /\ stage' = "done" /\ UNCHANGED g
+  /\ out' = Cases(g.G)
+
+Next == PickTopoLay \/ PickFill \/ PickSlot \/ Evaluate
 Spec == Init /\ [][Next]_vars
 
-\* ------------------------------------------------------------------ B => A, case export
-Cases(G) == {[ar |-> a, b |-> BResult(G, a), bok |-> BRefinesA(G, a)] : a \in Args(G)}
-
-Emit == stage = "prog" =>
+Emit == stage = "done" =>
           PrintT("CASE " \o ToJson([G |-> g.G, topo |-> g.topo, lay |-> g.lay, fill |-> g.fill, slots |-> g.slots,
-                                    cases |-> Cases(g.G)]))
+                                    cases |-> out]))
 
 cMenusSmall == <<{"edges", "loose2"}, {"childs"}>>
 cMenus1  == <<{"edges", "shapes", "kinds", "loose"}>>
 cMenusFn == <<{"fns", "loose2"}>>
+cMenusFn1 == <<{"fn1", "loose2"}>>
 cMenus2q == <<{"parents"}, {"childs", "loose2"}>>
 cMenus2  == <<{"parents", "loose2"}, {"child", "loose2"}>>
 cMenus2f == <<{"fns"}, {"childs", "loose2"}>>
